@@ -53,6 +53,34 @@ fn from_fn_copy<const N: usize>() {
     must_reach!("every slot compared");
 }
 
+/// Parameter patterns with a binding mode (`mut`, `ref`, `ref mut`): std hands the closure its own
+/// copy of the index, so writing through the binding must not disturb the macro's loop counter
+/// (konst <= 0.3.16 bound `ref mut i` to the counter itself: slots were skipped and returned unwritten).
+fn from_fn_binding_modes<const N: usize>() {
+    let d: usize = kani::any();
+    kani::assume(d <= 3);
+    let got: [usize; N] = array::from_fn!(|ref mut i| {
+        *i += d;
+        *i ^ 5
+    });
+    let want: [usize; N] = core::array::from_fn(|ref mut i| {
+        *i += d;
+        *i ^ 5
+    });
+    let got2: [usize; N] = array::from_fn!(|mut i| {
+        i += d;
+        i
+    });
+    let got3: [usize; N] = array::from_fn!(|ref i| *i + d);
+    let mut i = 0;
+    while i < N {
+        assert!(got[i] == want[i], "from_fn!(|ref mut i| ..) slot differs from core::array::from_fn");
+        assert!(got2[i] == i + d && got3[i] == i + d);
+        i += 1;
+    }
+    must_reach!("every slot compared");
+}
+
 fn map_by_value<const N: usize>() {
     let input: [u8; N] = kani::any();
     let m: u8 = kani::any();
@@ -295,6 +323,8 @@ macro_rules! per_n {
                 calls("konst::array::map!"), bounds("every [u8;N] input, every closure of the mask/xor family, closure / typed / pattern / fn-path forms", "same") }
             tiers! { from_fn_copy: unwind(7, 7), from_fn_copy::<$n>(), from_fn_copy::<$n>(),
                 calls("konst::array::from_fn!"), bounds("every closure of the index family, with and without the array type", "same") }
+            tiers! { from_fn_binding_modes: unwind(7, 7), from_fn_binding_modes::<$n>(), from_fn_binding_modes::<$n>(),
+                calls("konst::array::from_fn!"), bounds("closure parameter written as `ref mut i`, `mut i`, `ref i`; every increment 0..=3 written through the binding", "same") }
             tiers! { map_by_value: unwind(7, 7), map_by_value::<$n>(), map_by_value::<$n>(),
                 calls("konst::array::map_!", "konst::array::from_fn_!"), bounds("every [u8;N] input, mask family", "same") }
             tiers! { map_nonlocal_exit: unwind(7, 7), map_nonlocal_exit::<$n>(), map_nonlocal_exit::<$n>(),
